@@ -140,10 +140,16 @@ class RankSelection(SelectionFunction[T]):
         """
         random_value = randomness.next_float()
         bias = self.bias
-        return int(
-            len(population)
-            * ((bias - sqrt(bias**2 - (4.0 * (bias - 1.0) * random_value))) / 2.0 / (bias - 1.0))
-        )
+        # Linear ranking: the relative position x is the smaller root of
+        # (bias - 1) * x**2 - bias * x + random_value = 0.  The closed form
+        # (bias - sqrt(discriminant)) / (2 * (bias - 1)) divides by zero for a bias of 1.0
+        # and cancels catastrophically close to it, which can yield positions >= 1.0.
+        # Multiplying with the conjugate gives an equivalent form without these problems;
+        # for a bias of 1.0 it degenerates to uniform selection.
+        discriminant = bias**2 - (4.0 * (bias - 1.0) * random_value)
+        position = 2.0 * random_value / (bias + sqrt(discriminant))
+        # Guard against rounding for random values adjacent to 1.0.
+        return min(int(len(population) * position), len(population) - 1)
 
 
 class TournamentSelection(SelectionFunction[T]):
